@@ -148,7 +148,7 @@ reg('C08', 'fault_enumeration',
 
 reg('C10', 'fault_enumeration',
     'runtime monitor: real IpmReader and the extraction tool run on files whose k-th record carries an injected fault; records delivered, exception attributes and the operator line observed for every k',
-    'n = 1..10 (quick) / 1..12, 17, 25, 40 (thorough) records x every position k x eight ways of walking the reader x fourteen fault kinds (an unconfigured bit above every element present, a flagged element where the record ends exactly on a field boundary, an element deleted from a configuration object that has already read the file, a record ending inside its own header, a bad decimal value under a caller-supplied configuration, truncated record, oversized '
+    'n = 1..10 (quick) / 1..40, 64, 100, 257 (thorough) records x every position k (for the files of 100 and 257 records: the ends, the middle and every eighth position) x eight ways of walking the reader x fourteen fault kinds (an unconfigured bit above every element present, a flagged element where the record ends exactly on a field boundary, an element deleted from a configuration object that has already read the file, a record ending inside its own header, a bad decimal value under a caller-supplied configuration, truncated record, oversized '
     'length, undecodable MTI (a quarter of the lists with records over 2 KB; truncation points: anywhere, straight after the length prefix, on a fill byte of a block, after two fill-valued data bytes; the context of a truncated record must be all its surviving bytes), unknown bitmap bit, bad field length, bad typed value, bad PDS content, bad ICC content, trailing '
     'bytes) x {VBS, 1014} x {latin_1, cp500, ascii (whose MTI fault is undecodable bytes)}: exactly k-1 records equal to the strict reference decode, MciIpmDataError with '
     'record_number == k and binary_context_data == prefix + raw bytes of record k, and "Error detected in record k" printed by '
